@@ -202,3 +202,63 @@ package bpmn
 //@             evval(ev(evlen - 1)).(nextActionMessage).response == result &&
 //@             evval(ev(evlen - 1)).(nextActionMessage).flow == flow
 //@   ensures [at-most-one-run-spawned] forall a int, b int :: old(evlen) <= a && a < b && b < evlen && isSpawn(ev(a)) ==> !isSpawn(ev(b))
+
+// ---------------------------------------------------------------------------
+// protection classes (C17): fields that may only be accessed with the named lock of the same object held
+
+//@ type harness
+//@   field eventConsumers guarded_by eventConsumersLock
+
+//@ type Process
+//@   field eventConsumers guarded_by eventConsumersLock
+
+//@ type subProcess
+//@   field eventConsumers guarded_by eventConsumersLock
+
+//@ type ProcessSet
+//@   field catchCh nonnil guarded_by cmu
+
+//@ type flowTracker
+//@   field flows nonnil guarded_by lock
+
+//@ type FlowNodeMapping
+//@   field mapping nonnil guarded_by lock
+
+// The flow node mapping is created locked (NewLockedFlowNodeMapping) and filled by its creator
+// before Finalize releases the lock.
+//@ func NewLockedFlowNodeMapping
+//@   prop C17
+//@   flag lockeffect
+//@   ensures result != nil && fresh(result) && held(mu(result.lock)) == 2
+
+//@ func (*FlowNodeMapping).RegisterElementToFlowNode
+//@   prop C17
+//@   flag entrylocks
+//@   requires held(mu(mapping.lock)) == 2
+//@   ensures held(mu(mapping.lock)) == 2
+
+//@ func (*FlowNodeMapping).Finalize
+//@   prop C17
+//@   flag entrylocks
+//@   flag lockeffect
+//@   requires held(mu(mapping.lock)) == 2
+//@   ensures held(mu(mapping.lock)) == 0
+
+// The inclusive gateway's tracker keeps its lock while it is behind the trace stream; `locked` says
+// whether the calling goroutine (flowTracker.run) currently holds it.
+//@ func (*flowTracker).handleTrace
+//@   prop C05 C17
+//@   flag entrylocks
+//@   flag lockeffect
+//@   requires locked ==> held(mu(tracker.lock)) == 2
+//@   requires !locked ==> held(mu(tracker.lock)) == 0
+//@   ensures result0 && held(mu(tracker.lock)) == 2
+
+//@ func (*flowTracker).run
+//@   prop C05 C07 C17
+//@   flag entrylocks
+//@   flag lockeffect
+//@   requires held(mu(tracker.lock)) == 2
+//@   ensures [lock-released-on-shutdown] held(mu(tracker.lock)) == 0
+//@   loop 1 for
+//@     invariant (locked ==> held(mu(tracker.lock)) == 2) && (!locked ==> held(mu(tracker.lock)) == 0)
